@@ -1,10 +1,11 @@
-import Rtsp.Model.Sdp.Session
+import Rtsp.Model.Sdp.ValidB
 import Rtsp.Drv.Util
 /-
 Line protocol of the SDP model (domain `sdp`).
   sdp marshal <multicast 0|1> <description tokens…>      → text <hex>
   sdp parse <text hex> <oracle table tokens…>            → ok <description tokens…> | err | unm
   sdp doc <text hex>                                     → ok <document tokens…> | err | unm
+  sdp valid <description tokens…> <oracle table tokens…> → valid 0|1   (`validSessionB`, sound for `ValidSession`)
 Strings and blobs are hex (`-` = empty), absent options are `~`.
   description := title mikey ngroups {n id…} nmedias {media}
   media       := type id back(0|1) secure(0|1) mikey control nformats {format}
@@ -201,6 +202,13 @@ def mk : IO Handler := do
       match pSession.run rest with
       | some (s, []) => return s!"text {hex (marshal (mc == "1") s)}"
       | _ => return "bad-op"
+    | "valid" :: rest =>
+      match pSession.run rest with
+      | some (s, table) =>
+        match tableOf table with
+        | some tb => return s!"valid {b2s (validSessionB tb.oracle s)}"
+        | none => return "bad-op"
+      | none => return "bad-op"
     | "parse" :: text :: table =>
       match unhex text, tableOf table with
       | some t, some tb => return resLine encSession (unmarshal tb.oracle t)
